@@ -32,6 +32,11 @@ class World(object):
         self.S, self.U = S, U
         self.sched = Baton()
         self.items, self.bad = list(items), set(bad)
+        # one list whose tile lock is held by another process for a while: creating it ends in LockTimeout 130 times in a
+        # row (more than the 101 attempts that upstream errors get) before it succeeds - exp_backoff keeps trying, the
+        # list is created like any other (one "Work" step of the model)
+        good = [i for i in self.items if i not in self.bad]
+        self.locked = {good[-1]: 130} if good else {}
         self.done, self.lost = [], []
         self.raised = None
         w = self
@@ -72,6 +77,10 @@ class World(object):
             def load_tile_coords(self, tiles):
                 if tiles[0] in w.bad:
                     raise SourceError('upstream keeps failing for %s' % (tiles,))
+                if w.locked.get(tiles[0], 0) > 0:
+                    from mapproxy.util.lock import LockTimeout
+                    w.locked[tiles[0]] -= 1
+                    raise LockTimeout('another process holds the tile lock of %s' % (tiles,))
                 w.sched.point('work')
                 w.done.append(tiles[0])
                 w.emit('work', tiles)
@@ -324,7 +333,7 @@ def run(ctx):
                               {'trace': t[:matched[i] + 1]})
         ctx.log('%s: replayed %d behaviours, validated %d schedules (%d rejected)' % (name, k, len(traces), nrej))
     ctx.assumptions += ['workers are threads started by the scheduler instead of processes; queue time-outs are taken immediately when the '
-                        'queue is full; the retries of exp_backoff for a list whose upstream keeps failing are one step']
+                        'queue is full; the retries of exp_backoff for a list whose upstream keeps failing are one step; so are the 130 lock timeouts of the one list whose tile lock is held by another process']
     return ctx.finish('model_checking', 'TLC: all interleavings of the walker and two workers over a queue of size 2, four work lists, with '
                       'lists that keep failing; behaviours forced on and schedules recorded from the real TileWorkerPool / TileSeedWorker / exp_backoff')
 
